@@ -32,6 +32,8 @@ impl Module for A {
         log("a", format!("start({})", stage));
         if stage == 0 {
             let gen = { let mut s = STARTS.lock().unwrap(); *s += 1; *s };
+            // a (re)started module is active while its start-up stages run: what it sends through its own gate goes out
+            send(Message::default().id(400 + gen as u16), "out");
             tokio::spawn(async move {
                 for k in 0..sc.nticks { sleep(ms(sc.tick_ms)).await; log("a", format!("tick(gen{},{})", gen, k)); }
             });
@@ -42,12 +44,14 @@ impl Module for A {
         if msg.header().kind == SHUT {
             let sc = SCN.lock().unwrap().clone().unwrap();
             log("a", "shutdown-requested".into());
+            // the module is inert from the END of this event: what it sends in this event still goes out
+            send(Message::default().id(450), "out");
             match sc.restart_after_ms { Some(r) => current().shutdow_and_restart_in(ms(r)), None => current().shutdown() }
         } else {
             log("a", format!("msg({})", msg.header().id));
         }
     }
-    fn reset(&mut self) { log("a", "reset".into()); }
+    fn reset(&mut self) { let who = current().path().to_string(); log("a", format!("reset(in context of {})", who)); }
 }
 
 struct B;
@@ -74,7 +78,10 @@ fn expected(sc: &Scn) -> Vec<(String, String, u64)> {
     for st in 0..sc.stages { out.push(("a".into(), format!("start({})", st), 0)); }
     for k in 0..sc.nticks { let t = (k as u64 + 1) * sc.tick_ms * 1000; if t < s { out.push(("a".into(), format!("tick(gen1,{})", k), t)); } }
     out.push(("a".into(), "shutdown-requested".into(), s));
-    out.push(("a".into(), "reset".into(), s));
+    out.push(("a".into(), "reset(in context of a)".into(), s));
+    out.push(("c".into(), "msg(450)".into(), s));
+    out.push(("c".into(), "msg(401)".into(), 0));
+    if let Some(b) = back { out.push(("c".into(), "msg(402)".into(), b)); }
     if let Some(b) = back {
         for st in 0..sc.stages { out.push(("a".into(), format!("start({})", st), b)); }
         for k in 0..sc.nticks { out.push(("a".into(), format!("tick(gen2,{})", k), b + (k as u64 + 1) * sc.tick_ms * 1000)); }
@@ -113,6 +120,7 @@ fn main() {
         t1.connect(t2.clone(), None);
         t2.connect(sim.gate("c", "in"), None);
         sim.gate("b", "direct").connect(sim.gate("c", "in2"), None);
+        sim.gate("a", "out").connect(sim.gate("c", "in3"), None);
         let res = std::panic::catch_unwind(std::panic::AssertUnwindSafe(move || Builder::seeded(1).quiet().build(sim.freeze()).run()));
         let mut got = LOG.lock().unwrap().clone();
         let mut want = expected(&sc);
@@ -121,6 +129,7 @@ fn main() {
         want.sort_by_key(key);
         let mut bad: Option<(&str, String, String)> = None;
         if res.is_err() { bad = Some(("run-panicked", "run() returns".into(), "panic".into())); }
+        else if let Ok(Err(e)) = &res { bad = Some(("run-reports-error", "Ok: no module of the scenario fails".into(), format!("{:?}", e).chars().take(300).collect())); }
         else if got != want {
             let extra: Vec<_> = got.iter().filter(|e| !want.contains(e)).collect();
             let missing: Vec<_> = want.iter().filter(|e| !got.contains(e)).collect();
